@@ -428,7 +428,8 @@ def check_C14(ctx):
             if not any(set(x["name"].split()) & {"-h", "--help", "hlp", "hh"} for x in holder["subs"]):
                 holder["subs"].append(gen.mkcmd(rng.choice(["hlp -h", "hh --help", "-h", "hlp --help -h"]), desc="named like a help token"))
         # the version flag is declared before or after the root's own options
-        version = {"name": "V version", "text": "v1.2", "last": rng.random() < 0.5} if rng.random() < 0.5 else None
+        # (the version flag may have more than one short and more than one long name: any of them, given first, asks for it)
+        version = {"name": rng.choice(["V version", "V version", "V version W", "version V release"]), "text": "v1.2", "last": rng.random() < 0.5} if rng.random() < 0.5 else None
         # a sub-command of the root may be named like the version flag: given first, the token still asks for the version
         if version and rng.random() < 0.3 and not any(set(x["name"].split()) & {"-V", "--version", "ver", "vv"} for x in root["subs"]):
             root["subs"].append(gen.mkcmd(rng.choice(["ver -V", "vv --version", "-V", "--version", "ver --version -V"]),
@@ -462,7 +463,7 @@ def check_C14(ctx):
             cases.append({"op": "run", "env": {}, "version": version, "root": root, "argv": a2})
             meta.append(("help", pos, root))
         if version:
-            vt = rng.choice(["-V", "--version"])
+            vt = rng.choice(gen.opt_names({"name": version["name"]}))
             cases.append({"op": "run", "env": {}, "version": version, "root": root, "argv": [vt] + argv})
             meta.append(("version", 0, root))
             if argv:
@@ -498,7 +499,7 @@ def check_C14(ctx):
                 if nxt:
                     cur = nxt[0]
                     cmds.append(cur)
-            if c["version"] and argv[0] in ("-V", "--version"):
+            if c["version"] and argv[0] in gen.opt_names({"name": c["version"]["name"]}):
                 continue
             stats["help"] += 1
             pol = effective_policy(cmds)
@@ -1032,7 +1033,8 @@ def check_C18(ctx):
     cases = []
     # (the last three are not ASCII: one letter of two bytes -- a long option, since the library counts bytes --, two such
     # letters, and an ASCII letter followed by one)
-    onames = ["a", "b", "f", "force", "o", "out", "v", "x", "aa", "A", "1", "a-b", "_", "ab", "\xc3\xa9", "\xc3\xa9\xc3\xb8", "a\xc3\xa9"]
+    onames = ["a", "b", "f", "force", "o", "out", "v", "x", "aa", "A", "1", "a-b", "_", "ab", "\xc3\xa9", "\xc3\xa9\xc3\xb8", "a\xc3\xa9",
+              "-x", "-f", "--force"]      # names written with their dashes are long options whose name starts with a dash
     anames = ["SRC", "DST", "X", "src", "Src", "S R", "A1", "_A", "1A", "OPTIONS", "A-B", "A.B", "", "É", "A_", "ARG", "-", "--", "[A]", "A..."]
     for k_ in range(ctx.scale(4000, 40000)):
         decls = []
